@@ -266,7 +266,7 @@ def bytes_split_to(ctx):
     at = ctx.args[1].t
     b = loc.val
     ex.require(st, z3.ULE(at, b.len), 'split_to', 'split_to out of bounds')
-    head = b.slice(0, at, 'bytes')
+    head = ex.bslice(st, b, 0, at, 'bytes')
     loc.set(b.slice(at, simp(b.len - at), 'bytes'))
     return head
 
@@ -594,7 +594,7 @@ def slice_is_empty(ctx):
     return Bool(simp(BufLoc(ctx.ex, ctx.st, ctx.args[0]).val.len == BV(0, 64)))
 
 
-@contract(r'^core::slice::<impl \[u8\]>::to_vec$|^<\[u8\] as ToOwned>::to_owned$|^core::slice::<impl \[u8\]>::to_owned$|^<str as ToOwned>::to_owned$|^<str as ToString>::to_string$|^<(?:std::string::)?String as From<&str>>::from$|^<&str as Into<(?:std::string::)?String>>::into$|^<str as Into<String>>::into|^<(?:std::string::)?String as ToString>::to_string$|^<&str as ToString>::to_string$|^core::str::<impl str>::to_string$|^core::str::<impl str>::to_owned$|^std::string::<impl ToString for str>::to_string$')
+@contract(r'^(?:core|std|alloc)::slice::<impl \[u8\]>::to_vec$|^<\[u8\] as ToOwned>::to_owned$|^core::slice::<impl \[u8\]>::to_owned$|^<str as ToOwned>::to_owned$|^<str as ToString>::to_string$|^<(?:std::string::)?String as From<&str>>::from$|^<&str as Into<(?:std::string::)?String>>::into$|^<str as Into<String>>::into|^<(?:std::string::)?String as ToString>::to_string$|^<&str as ToString>::to_string$|^core::str::<impl str>::to_string$|^core::str::<impl str>::to_owned$|^std::string::<impl ToString for str>::to_string$')
 def slice_to_vec(ctx):
     b = BufLoc(ctx.ex, ctx.st, ctx.args[0]).val
     k = 'vec' if 'u8' in ctx.callee else 'string'
@@ -928,7 +928,7 @@ def io_error_new(ctx):
     return Opaque('std::io::Error', ('ioerr', getattr(kind, 'tag', None) or (kind.name if isinstance(kind, Agg) else None)))
 
 
-@contract(r'^easy_error::err_msg::<.*>$|^easy_error::Error::new::<.*>$|^<easy_error::Error as From<.*>>::from$')
+@contract(r'(?:^|::)err_msg(?:::<.*>)?$|^easy_error::err_msg::<.*>$|^easy_error::Error::new::<.*>$|^<easy_error::Error as From<.*>>::from$')
 def easy_err_msg(ctx):
     tag = None
     a = ctx.args[0] if ctx.args else None
@@ -942,19 +942,29 @@ def easy_err_msg(ctx):
 
 # --------------------------------------------------------------------------- strings
 
+def utf8_validity(ex, st, b):
+    """z3 Bool 'b is valid UTF-8'.  Unknown in general (fresh), but tied to every byte string already known to be a
+    String on this path: equal bytes => equal validity (the equality witness j0 is existential)."""
+    if b.utf8 is not None:
+        return b.utf8
+    valid = z3.Bool(fresh_name('utf8ok'))
+    for (kb, flag) in st.env.get('utf8_known', []):
+        j0 = z3.BitVec(fresh_name('uj'), 64)
+        ex.assume(st, z3.Or(kb.len != b.len, z3.And(z3.ULT(j0, b.len), kb.at(j0) != b.at(j0)), valid == flag))
+    st.env.setdefault('utf8_flags', []).append(valid)
+    return valid
+
+
 @contract(r'^(?:std::string::)?String::from_utf8_lossy$')
 def string_from_utf8_lossy(ctx):
     """valid UTF-8 -> identity (Cow::Borrowed); invalid -> some other string (Cow::Owned of unknown bytes)"""
     ex, st = ctx.ex, ctx.st
     b = BufLoc(ex, st, ctx.args[0]).val
-    valid = z3.Bool(fresh_name('utf8ok'))
-    if b.utf8 is not None:
-        valid = b.utf8
+    valid = utf8_validity(ex, st, b)
     other = Bytes.symbolic('lossy', 'string')
     ex.assume(st, z3.UGE(other.len, b.len))
     ex.assume(st, z3.ULE(other.len, simp(b.len * 3)))
     res = Bytes(lambda i: z3.If(valid, b.at(i), other.at(i)), simp(z3.If(valid, b.len, other.len)), 'string', None, z3.BoolVal(True))
-    st.env.setdefault('utf8_flags', []).append(valid)
     cow = Agg('Cow', {}, simp(z3.If(valid, BV(0, 64), BV(1, 64))), {0: {0: res}, 1: {0: res}}, ex.si.enums['Cow'])
     return cow
 
@@ -975,8 +985,7 @@ def string_from_utf8(ctx):
     b = ex.deref(st, ctx.args[0])
     if not isinstance(b, Bytes):
         return NotImplemented
-    valid = b.utf8 if b.utf8 is not None else z3.Bool(fresh_name('utf8ok'))
-    st.env.setdefault('utf8_flags', []).append(valid)
+    valid = utf8_validity(ex, st, b)
     s = Bytes(b._at, b.len, 'string', b.conc, z3.BoolVal(True))
     return Agg('Result', {}, simp(z3.If(valid, BV(0, 64), BV(1, 64))), {0: {0: s}, 1: {0: Opaque('FromUtf8Error', 'utf8')}}, ex.si.enums['Result'])
 
@@ -1271,6 +1280,29 @@ def hashmap_remove(ctx):
     return Agg('Option', {}, simp(z3.If(p, BV(1, 64), BV(0, 64))), {1: {0: old}}, ex.si.enums['Option'])
 
 
+@contract(r'^<(.+) as Into<\1>>::into$|^<(.+) as From<\2>>::from$')
+def into_identity(ctx):
+    return ctx.args[0]
+
+
+@contract(r'^must_use::<.*>$|^std::convert::identity::<.*>$|^core::hint::must_use::<.*>$')
+def must_use(ctx):
+    return ctx.args[0]
+
+
+@contract(r'^std::fmt::format$|^alloc::fmt::format$|^std::fmt::format::format_inner$')
+def fmt_format(ctx):
+    """format!: an arbitrary (valid UTF-8) string; formatting has an empty body in this model"""
+    b = Bytes.symbolic('fmt', 'string')
+    ctx.ex.assume(ctx.st, z3.ULE(b.len, BV(4096, 64)))
+    return Bytes(b._at, b.len, 'string', None, z3.BoolVal(True))
+
+
+@contract(r'^(?:core::fmt::)?(?:rt::)?Arguments::<.*>::new|^Arguments::new|^Arguments::<.*>::from_str|^(?:core::fmt::rt::)?Argument::<.*>::new_|^core::fmt::rt::Argument::new_|^Arguments::<\'_>::new|^std::fmt::Arguments::<|^core::fmt::Arguments::<')
+def fmt_arguments(ctx):
+    return Opaque(ctx.dest_ty or 'fmt', 'fmt')
+
+
 # --------------------------------------------------------------------------- explicit panics
 
 @contract(r'^panic$|^panic_fmt$|^panic_display|^unwrap_failed$|^expect_failed$|^assert_failed|^core::panicking::|^std::rt::begin_panic|^std::panicking::begin_panic|^std::rt::panic_fmt|^core::option::unwrap_failed$|^core::option::expect_failed$|^core::result::unwrap_failed$|^core::slice::index::slice_[a-z_]*_fail$|^core::str::slice_error_fail$|^std::process::abort$|^core::intrinsics::abort$|^std::process::exit$')
@@ -1292,14 +1324,25 @@ def explicit_panic(ctx):
 
 # --------------------------------------------------------------------------- tracing / formatting: empty bodies
 
-@contract(r'^tracing::|^tracing_core::|^<tracing::|^tracing::__macro_support|^log::|^<.* as tracing::')
-def tracing_any(ctx):
-    c = ctx.callee
-    if 'is_enabled' in c or c.endswith('::enabled') or 'level_enabled' in c:
-        return Bool(False)
-    if 'LevelFilter::current' in c:
-        return NotImplemented
-    return NotImplemented
+@contract(r'^<(?:tracing::)?(?:log::)?Level as PartialOrd<(?:tracing::)?(?:log::)?LevelFilter>>::(?:le|lt)$|^<(?:tracing::)?(?:log::)?LevelFilter as PartialOrd<(?:tracing::)?(?:log::)?Level>>::(?:ge|gt)$|^tracing::__macro_support::__is_enabled$|^tracing::log::log_enabled|^log::__private_api::enabled$|^tracing::dispatcher::has_been_set$|^tracing_core::dispatcher::has_been_set$')
+def tracing_disabled(ctx):
+    """logging has an empty body: every `level <= max_level` test is false (max level OFF)"""
+    return Bool(False)
+
+
+@contract(r'^(?:tracing::)?(?:log::)?LevelFilter::current$|^tracing::log::max_level$|^log::max_level$|^(?:tracing_core::callsite::)?DefaultCallsite::interest$|^DefaultCallsite::register$')
+def tracing_level(ctx):
+    return Opaque(ctx.dest_ty or 'level', 'tracing')
+
+
+@contract(r'^(?:tracing::subscriber::)?Interest::is_never$')
+def tracing_is_never(ctx):
+    return Bool(True)
+
+
+@contract(r'^(?:tracing::subscriber::)?Interest::is_always$')
+def tracing_is_always(ctx):
+    return Bool(False)
 
 
 def install(engine):
